@@ -459,7 +459,7 @@ def run(ctx):
     # starts counting again.  That the log back end opens a connection once, forwards every message of its tag to it and closes it only when
     # the input has ended is C04.6; its findings are findings here.
     from . import common as _cm2, c04 as _c04
-    _cm2.lift(ctx, 'C02.9', 'table-lives-as-long-as-the-connection', _c04, 'C04', ('C04.6',), 'the object table of a connection must persist for the whole history of its tag', floor=6)
+    _cm2.lift(ctx, 'C02.9', 'table-lives-as-long-as-the-connection', _c04, 'C04', ('C04.6',), 'the object table of a connection must persist for the whole history of its tag', floor=6, soft=True)
 
     return ('inductive invariant over all histories by writer enumeration: db[k] append-only, db[k][g].generation == g and '
             '.id == k, lookups use index -1; creation only from new-id arguments, typing only via wl_registry.bind. '
